@@ -5,7 +5,7 @@ import (
 	"errors"
 	"fmt"
 	"io"
-	"runtime/metrics"
+	"runtime"
 	"strings"
 	"time"
 
@@ -78,11 +78,14 @@ func (r *c17Reader) Read(p []byte) (int, error) {
 	return n, nil
 }
 
-var allocSample = []metrics.Sample{{Name: "/gc/heap/allocs:bytes"}}
-
+// heapAllocs returns the exact number of heap bytes allocated so far.
+// runtime.ReadMemStats stops the world and flushes the per-P allocation caches;
+// the cheaper runtime/metrics counter lags by up to a span per size class, which
+// made an earlier version of this oracle flaky near its limit (false alarm, fixed).
 func heapAllocs() uint64 {
-	metrics.Read(allocSample)
-	return allocSample[0].Value.Uint64()
+	var ms runtime.MemStats
+	runtime.ReadMemStats(&ms)
+	return ms.TotalAlloc
 }
 
 type decodeResult struct {
@@ -94,12 +97,17 @@ type decodeResult struct {
 
 // guarded runs f under the statement budget and the allocation meter and
 // catches whatever escapes.
-func guarded(inputLen int, f func() ([]byte, error)) (res decodeResult) {
+func guarded(inputLen int, measure bool, f func() ([]byte, error)) (res decodeResult) {
 	zsim.SetBudget(int64(4000*(inputLen+64)) + 200000)
-	before := heapAllocs()
+	var before uint64
+	if measure {
+		before = heapAllocs()
+	}
 	defer func() {
 		zsim.SetBudget(0)
-		res.alloc = heapAllocs() - before
+		if measure {
+			res.alloc = heapAllocs() - before
+		}
 		if p := recover(); p != nil {
 			res.panicked = p
 		}
@@ -157,7 +165,7 @@ func (c17World) Run(prop string, ch *zsim.Choices, trace bool) *RunResult {
 		start := 0
 		for _, end := range disk.bounds {
 			ev := stream[start:end]
-			r := guarded(len(ev), func() ([]byte, error) {
+			r := guarded(len(ev), false, func() ([]byte, error) {
 				var out bytes.Buffer
 				err := cbor.Cbor2JsonManyObjects(bytes.NewReader(ev), &out)
 				return out.Bytes(), err
@@ -206,7 +214,7 @@ func (c17World) Run(prop string, ch *zsim.Choices, trace bool) *RunResult {
 			if k == 0 {
 				partial = false
 			}
-			r := guarded(len(prefix), func() ([]byte, error) {
+			r := guarded(len(prefix), k%16 == 0, func() ([]byte, error) {
 				var out bytes.Buffer
 				err := cbor.Cbor2JsonManyObjects(&c17Reader{b: prefix, chunk: chunk, failAt: -1, withN: withN}, &out)
 				return out.Bytes(), err
@@ -258,7 +266,7 @@ func (c17World) Run(prop string, ch *zsim.Choices, trace bool) *RunResult {
 				zsim.Fault("read_error")
 				desc += fmt.Sprintf("+read error at %d", rd.failAt)
 			}
-			r := guarded(len(buf), func() ([]byte, error) {
+			r := guarded(len(buf), true, func() ([]byte, error) {
 				var out bytes.Buffer
 				err := cbor.Cbor2JsonManyObjects(rd, &out)
 				return out.Bytes(), err
@@ -274,7 +282,7 @@ func (c17World) Run(prop string, ch *zsim.Choices, trace bool) *RunResult {
 			// other entry points on the same bytes
 			for ep := 0; ep < 3; ep++ {
 				ep := ep
-				r := guarded(len(buf), func() ([]byte, error) {
+				r := guarded(len(buf), true, func() ([]byte, error) {
 					switch ep {
 					case 0:
 						return cbor.DecodeIfBinaryToBytes(buf), nil
